@@ -5,6 +5,8 @@ package main
 
 import (
 	"bytes"
+	"crypto/ecdsa"
+	"crypto/sha256"
 	"encoding/binary"
 	"fmt"
 	"math/big"
@@ -49,8 +51,69 @@ func (g *Gen) verifyOp(msg, att []byte, attesters []string, t int) {
 		set("attesters", joinOr(",", as)).set("threshold", fmt.Sprint(t)).set("ecr", ecrEntries(msg, att))})
 }
 
+// attestLargeQuorums: thresholds far beyond the handful of attesters a chain usually has (16, 17, 64, 256, 257: past any
+// "small" fast path, past a byte-sized counter).  An honest quorum; two neighbours swapped exactly in the middle; one
+// signer twice across the middle; the first half repeated (each half in order, the whole not); a stranger in the
+// last position.
+func (g *Gen) attestLargeQuorums() {
+	type ks struct {
+		k    *ecdsa.PrivateKey
+		addr []byte
+		hexs string
+	}
+	var pool []ks
+	for i := 0; i < 260; i++ {
+		h := sha256.Sum256([]byte(fmt.Sprintf("big-attester-%d", i)))
+		k, err := crypto.ToECDSA(h[:])
+		if err != nil {
+			continue
+		}
+		pool = append(pool, ks{k, crypto.PubkeyToAddress(k.PublicKey).Bytes(), "0x" + hx(crypto.FromECDSAPub(&k.PublicKey))})
+	}
+	sort.Slice(pool, func(a, b int) bool { return bytes.Compare(pool[a].addr, pool[b].addr) < 0 })
+	sign := func(k ks, msg []byte) []byte {
+		sig, _ := crypto.Sign(crypto.Keccak256(msg), k.k)
+		return sig
+	}
+	for _, t := range []int{16, 17, 64, 256, 257} {
+		if t+1 > len(pool) {
+			continue
+		}
+		var attesters []string
+		for _, k := range pool[:t] {
+			attesters = append(attesters, k.hexs)
+		}
+		msg := g.randBytes(40)
+		var sigs [][]byte
+		for _, k := range pool[:t] {
+			sigs = append(sigs, sign(k, msg))
+		}
+		join := func(ss [][]byte) []byte {
+			var a []byte
+			for _, x := range ss {
+				a = append(a, x...)
+			}
+			return a
+		}
+		h := t / 2
+		g.verifyOp(msg, join(sigs), attesters, t)
+		sw := append([][]byte{}, sigs...)
+		sw[h-1], sw[h] = sw[h], sw[h-1]
+		g.verifyOp(msg, join(sw), attesters, t)
+		du := append([][]byte{}, sigs...)
+		du[h] = du[h-1]
+		g.verifyOp(msg, join(du), attesters, t)
+		rp := append(append([][]byte{}, sigs[:h]...), sigs[:t-h]...)
+		g.verifyOp(msg, join(rp), attesters, t)
+		st := append([][]byte{}, sigs...)
+		st[t-1] = sign(pool[t], msg) // pool[t] is not enabled; its address is above all the others, so the order holds
+		g.verifyOp(msg, join(st), attesters, t)
+	}
+}
+
 func scnAttest(g *Gen, budget int, arg string) {
 	g.config()
+	g.attestLargeQuorums()
 	for g.nOps < budget {
 		n := 1 + g.pick(5) // enabled set size
 		t := 1 + g.pick(n) // threshold
